@@ -98,6 +98,12 @@ def run(chk):
     from . import c03
     chk.borrow(c03.run, {"C03.R3": "C06.R9"})
     chk.obs = [o for o in chk.obs if not (o.rule == "C06.R9" and o.key not in ("tot-and-n-over-same-cards", "pool-mean=tot/n"))]
+    # R3 also: the (d, u) pair comes from mvrs_to_data *of the samples handed in* -- the filter that decides which cards contribute
+    # is the one inside mvrs_to_data (R4), not a pre-selection by the caller (C09.R1)
+    from . import c09
+    n0 = len(chk.obs)
+    chk.borrow(c09.r_set_p_values, {"C09.R1": "C06.R3"})
+    chk.obs = chk.obs[:n0] + [o for o in chk.obs[n0:] if o.rule != "C06.R3" or o.key == "data-of-same-assertion"]
 
 
 def r1(chk):
@@ -295,6 +301,51 @@ def r4(chk):
         e2, t2_, it2, ifs2 = aud.single_gen(cs2[0])
         ok = norm(e2) == f"self.assorter.assort(mvr_sample[{norm(t2_)}])" and norm(it2) == "range(len(mvr_sample))" and not ifs2
     chk.ob("C06.R4", where, "polling-data", ok, "polling data are the assorter applied to every MVR in order", node=fn, strength="N")
+
+
+def data_as_built(chk, rule):
+    """the first component mvrs_to_data returns *is* the array of B(mvr_i, cvr_i) (comparison) resp. A(mvr_i) (polling) it built:
+    the name is bound to nothing else, is not stored into, augmented or handed over as an `out=` buffer.  (C03: the reduction
+    identity is about the mean of the B values themselves; a 'sanitising' transformation in between -- clipping, rounding --
+    breaks it for some discrepancy.)"""
+    fn = chk.fn(REL, "Assertion.mvrs_to_data", canonical=True)
+    where = W("Assertion.mvrs_to_data")
+    comps = [c for c in aud.comps(fn) if any(norm(x.func).endswith("overstatement_assorter") or norm(x.func) == "self.assorter.assort"
+                                             for x in ast.walk(c.elt) if isinstance(x, ast.Call))]
+    built = lambda e: isinstance(e, ast.Call) and norm(e.func) in ("np.array", "np.asarray", "numpy.array") and e.args \
+        and any(e.args[0] is c for c in comps) and not [k for k in e.keywords if k.arg not in ("dtype",)]
+    rets = [r for r in walk_local(fn) if isinstance(r, ast.Return) and r.value is not None]
+    problems = []
+    for r in rets:
+        first = r.value.elts[0] if isinstance(r.value, ast.Tuple) and r.value.elts else r.value
+        if built(first):
+            continue
+        if not isinstance(first, ast.Name):
+            problems.append(f"returns {norm(first)[:60]}")
+            continue
+        nm = first.id
+        for x in walk_local(fn):
+            if isinstance(x, ast.Assign):
+                for t in x.targets:
+                    if isinstance(t, ast.Name) and t.id == nm and not built(x.value):
+                        problems.append(f"line {x.lineno}: {nm} = {norm(x.value)[:60]}")
+                    elif isinstance(t, ast.Subscript) and norm(t.value) == nm:
+                        problems.append(f"line {x.lineno}: store into {nm}")
+                    elif isinstance(t, (ast.Tuple, ast.List)) and any(isinstance(e, ast.Name) and e.id == nm for e in t.elts):
+                        problems.append(f"line {x.lineno}: {nm} rebound in a tuple assignment")
+            elif isinstance(x, (ast.AugAssign, ast.AnnAssign)) and isinstance(x.target, ast.Name) and x.target.id == nm \
+                    and not (isinstance(x, ast.AnnAssign) and (x.value is None or built(x.value))):
+                problems.append(f"line {x.lineno}: {nm} augmented / rebound")
+            elif isinstance(x, ast.Call) and any(k.arg == "out" and norm(k.value) == nm for k in x.keywords):
+                problems.append(f"line {x.lineno}: {nm} used as an out= buffer")
+            elif isinstance(x, ast.Call) and isinstance(x.func, ast.Attribute) and norm(x.func.value) == nm \
+                    and x.func.attr in ("clip", "round", "sort", "fill", "put", "resize", "itemset", "partition") and \
+                    (x.func.attr in ("sort", "fill", "put", "resize", "itemset", "partition") or any(k.arg == "out" for k in x.keywords)):
+                problems.append(f"line {x.lineno}: {nm}.{x.func.attr}(...) in place")
+    chk.need(rule, len(comps), 2, "comprehensions building the data")
+    chk.ob(rule, where, "data-returned-as-built", bool(rets) and not problems,
+           "the data returned are the array of assorter values as built, position by position: not transformed, re-bound or "
+           "written into on the way out", node=fn, strength="N", **({"problems": problems} if problems else {}))
 
 
 def r5(chk):
